@@ -7,7 +7,8 @@ use crate::conv::*;
 use crate::exec::panic_msg;
 use pushr::push::buffer::PushBuffer;
 use pushr::push::graph::Graph;
-use pushr::push::instructions::InstructionCache;
+use pushr::push::instructions::{Instruction, InstructionCache, InstructionSet};
+use pushr::push::interpreter::PushInterpreter;
 use pushr::push::item::Item;
 use pushr::push::random::CodeGenerator;
 use pushr::push::stack::PushStack;
@@ -514,8 +515,74 @@ fn gen_call(m: &str, a: &[Value], st: Option<&Value>) -> Value {
     }
 }
 
+// ------------------------------------------------------------------------------------------------
+// InstructionSet as an object: new / load / add (custom closures push their tag on INTEGER) / is / get / cache / exec
+
+fn iset_state(s: &InstructionSet) -> Value {
+    let mut names = s.cache().list;
+    names.sort();
+    json!({"names": names})
+}
+fn iset_op(s: &mut InstructionSet, m: &str, a: &[Value]) -> Value {
+    match m {
+        "load" => {
+            s.load();
+            unit()
+        }
+        "add" => {
+            let k = a[1].as_i64().unwrap() as i32;
+            let old = s.add(a[0].as_str().unwrap().to_string(),
+                            Instruction::new(move |st: &mut PushState, _c: &InstructionCache| st.int_stack.push(k)));
+            val(json!(old.is_some()))
+        }
+        "is" => val(json!(s.is_instruction(a[0].as_str().unwrap()))),
+        "get" => val(json!(s.get_instruction(a[0].as_str().unwrap()).is_some())),
+        "cache_len" => val(json!(s.cache().list.len())),
+        "exec" => {
+            let mut st = PushState::new();
+            st.int_stack.push(2);
+            st.int_stack.push(3);
+            st.exec_stack.push(Item::instruction(a[0].as_str().unwrap().to_string()));
+            let cache = s.cache();
+            PushInterpreter::step(&mut st, s, &cache);
+            let mut ints = vec![];
+            while let Some(x) = st.int_stack.pop() {
+                ints.push(x);
+            }
+            val(json!(ints))
+        }
+        _ => json!({"t": "harness", "v": "unknown method"}),
+    }
+}
+fn run_iset(case: &Value, out: &mut dyn Write) {
+    let mut s = InstructionSet::new();
+    let mut first = Some(iset_state(&s));
+    for (i, op) in case["ops"].as_array().unwrap().iter().enumerate() {
+        let m = op["m"].as_str().unwrap().to_string();
+        let args = op["args"].as_array().cloned().unwrap_or_default();
+        let r = catch_unwind(AssertUnwindSafe(|| iset_op(&mut s, &m, &args)));
+        let mut ev = json!({"id": case["id"], "i": i, "act": {"a": "iset", "m": m, "args": args}});
+        if let Some(p) = first.take() {
+            ev["pre"] = p;
+        }
+        match r {
+            Ok(ret) => {
+                ev["ret"] = ret;
+                ev["post"] = iset_state(&s);
+                writeln!(out, "{}", ev).unwrap();
+            }
+            Err(e) => {
+                ev["post"] = json!({"crash": "panic", "msg": panic_msg(e)});
+                writeln!(out, "{}", ev).unwrap();
+                return;
+            }
+        }
+    }
+}
+
 pub fn run_api_case(case: &Value, out: &mut dyn Write) {
     match case["api"].as_str().unwrap_or("") {
+        "iset" => run_iset(case, out),
         "stack" => {
             if case["elem"].as_str() == Some("item") {
                 run_stack::<Item>(case, out)
